@@ -21,7 +21,11 @@ THEOREMS = [
     "PV.C03Split.C03_data_every_step",
     "PV.C03Split.C03_handover",
     "PV.C03Split.C03_e2e_cov_split",
+    "PV.C03Split.C03_e2e_dat_split",
+    "PV.C03Split.CovRec.ok",
+    "PV.C03Split.DatRec.ok",
     "PV.C03Split.Ex.recovered",
+    "PV.C03Split.ExD.recovered",
     "PV.MsGather.preMultisetupRec_ok",
     "PV.MsGather.vstack_gather",
     "PV.MsGather.preSplit_eq_foldl",
@@ -84,7 +88,7 @@ RULE = (
     "distinct = (modes, setups, refs, roving counts, method)"
 )
 EXTRA_TRUSTED = ["contracts of np.linalg.svd / pinv / qr / inv, scipy.linalg.eig (as C01)"]
-ASSUMPTIONS = ["setups without any roving sensor are outside the property (pre_multisetup cannot reshape an empty block)", "cases whose per-setup Hankel singular-value gap is below 1e-7 are skipped and counted"]
+ASSUMPTIONS = ["reference indices are non-negative (a negative index makes list.remove raise like any index that is not a channel; the record-level model works with naturals)", "setups without any roving sensor are outside the property (pre_multisetup cannot reshape an empty block)", "cases whose per-setup Hankel singular-value gap is below 1e-7 are skipped and counted"]
 
 
 def _split_cases(ctx, nmax):
